@@ -144,7 +144,7 @@ class Ctx(object):
         return f
 
 
-def run_all_configs(run, tier, res, target='le', ilp32='always'):
+def run_all_configs(run, tier, res, target='le', ilp32='always', strict=False):
     """Decide on the default configuration, on every other configuration
     whose code differs (see Ctx.config_variants) and on a little-endian ILP32
     target (i386: 32-bit long, size_t and pointers - `1UL << 32`, size_t
@@ -172,6 +172,14 @@ def run_all_configs(run, tier, res, target='le', ilp32='always'):
         res.extra['build configurations analysed'].append('i386 (little-endian, ILP32), front end in -Os mode (passes disabled) with lifetime markers, '
                                                           '__GNUC__ = 12 and no __clang__, plain char unsigned')
         out = run(c32, tier, res, tag=' [i386]')
+    if strict:
+        # a little-endian core without unaligned access (ARMv6-M): byte-wise fallbacks under `#if __arm__ &&
+        # !__ARM_FEATURE_UNALIGNED`, `__ARM_ARCH_6M__`, ... are compiled here and nowhere else
+        cs = Ctx('le32s', suffix='_strict')
+        if cs.mod.ptr_bytes != 4 or cs.mod.big_endian:
+            raise Broken('target le32s is not a little-endian 32-bit target')
+        res.extra['build configurations analysed'].append('armv6m (little-endian, ILP32, no unaligned access, plain char unsigned)')
+        out = run(cs, tier, res, tag=' [armv6m]')
     return out
 
 
